@@ -4,7 +4,7 @@ from checks.enginelib import *
 META = {
     "text": "Lean: component model Chain (commit = allocate tx id + chain + append in one step; batches; Init after a crash); theorems chain_ok (ids are positions, every hash digests its predecessor's hash and its own content, transaction ids 0,1,2… in log order, for the durable log and what is queued), chain_ok_durable, chain_after_crash. Tie: trace validation incl. the log content and an independent re-computation of every hash; oracle on what InsertLogs received across restarts.",
     "note": 'Trusted: Lean kernel; event extraction; SHA-256/JSON of the hash are recomputed by the harness (their Lean model lives under C13), the model carries the verdict as a checked flag.',
-    "technique": 'Lean 4 proof (inductive invariant of the Chain component) + trace validation + chain oracle',
+    "technique": 'Lean 4 proof (inductive invariant of the Chain component) + trace validation + chain oracle + regenerated commander skeleton (extract/commander -> Generated/Commander.lean on every run): well-formedness of every control path by decide, refinement of this component by the interpreted skeleton under every schedule, observed runs re-executed in the skeleton system',
     "design_ref": '5 (C05)',
 }
 
